@@ -954,7 +954,7 @@ static const char* skip_word(const char* exp, const char** str)
     int match = (!strncmp(exp, cur, explen) &&
                  (   !cur[explen]
                   || cur[explen] == '/' || cur[explen] == ']'
-                  || cur[explen] == '.'
+                  || cur[explen] == '.' || cur[explen] == '%'
                   || isspace(cur[explen])));
     if(match) {
         *str += explen;
